@@ -7,9 +7,42 @@
    not yet covered by a theorem are decided by the implementation <-> specification <->
    hardware differential run only (listed as unproved_forms in the evidence). *)
 From Coq Require Import ZArith Bool List.
-From AxV Require Import Bits Outcome Codes Iced State Rt Mem Trace Exec ExecP FrameTac FrameP ByteStore MemP RegFile RegsP ISA CodeSem IsaP OperandP RmP AluRmP AluMemP AluImmP Alu32P AluImm32P UnaryP Unary32P TestP AdcP MovImmP SetccP NoCrashP StepCrashP.
+From AxV Require Import Bits Outcome Codes Iced State Rt Mem Trace Exec ExecP FrameTac FrameP ByteStore MemP RegFile RegsP ISA CodeSem IsaP OperandP RmP AluRmP AluMemP AluImmP Alu32P AluImm32P UnaryP Unary32P TestP AdcP MovImmP SetccP NoCrashP StepCrashP Alu16P Alu8P Unary16P Unary8P ShiftP Shift32P Shift16P Shift8P MulP XmmP NoCrash2P.
 From AxG Require Import Flags Regs Operand Helpers Dispatch Frame Unimpl I_add I_sub I_cmp I_and I_xor I_div.
 Local Open Scope Z_scope.
+
+Theorem C19_refinement_implies_no_crash_2 : forall i s run,
+  (forall op, alu16_refines i s op run -> no_crash (fst run)) /\
+  (forall op, alu8_refines i s op run -> no_crash (fst run)) /\
+  (forall sm, refines16 i s sm run -> no_crash (fst run)) /\
+  (forall sm, refines8 i s sm run -> no_crash (fst run)) /\
+  (forall op, rmw16_refines i s op run -> no_crash (fst run)) /\
+  (forall op, rmw8_refines i s op run -> no_crash (fst run)) /\
+  (forall op, un16_refines i s op run -> no_crash (fst run)) /\
+  (forall op, un8_refines i s op run -> no_crash (fst run)) /\
+  (forall l cnt, shift_refines i s l cnt run -> no_crash (fst run)) /\
+  (forall l cnt, shift32_refines i s l cnt run -> no_crash (fst run)) /\
+  (forall l cnt, shift16_refines i s l cnt run -> no_crash (fst run)) /\
+  (forall l cnt, shift8_refines i s l cnt run -> no_crash (fst run)) /\
+  (forall sm, mul_refines sm i s run -> no_crash (fst run)) /\
+  (forall sm, xmm_refines i s sm run -> no_crash (fst run)).
+Proof.
+  intros i s run. repeat split; intros.
+  - eapply alu16_refines_no_crash; eassumption.
+  - eapply alu8_refines_no_crash; eassumption.
+  - eapply refines16_no_crash; eassumption.
+  - eapply refines8_no_crash; eassumption.
+  - eapply rmw16_refines_no_crash; eassumption.
+  - eapply rmw8_refines_no_crash; eassumption.
+  - eapply un16_refines_no_crash; eassumption.
+  - eapply un8_refines_no_crash; eassumption.
+  - eapply shift_refines_no_crash; eassumption.
+  - eapply shift32_refines_no_crash; eassumption.
+  - eapply shift16_refines_no_crash; eassumption.
+  - eapply shift8_refines_no_crash; eassumption.
+  - eapply mul_refines_no_crash; eassumption.
+  - eapply xmm_refines_no_crash; eassumption.
+Qed.
 
 Print Assumptions cond_matches_sdm.
 
@@ -150,3 +183,4 @@ Print Assumptions C19_unimplemented_is_error.
 Print Assumptions C19_step_crash_sources.
 Print Assumptions C19_unsupported_is_error.
 Print Assumptions C19_refinement_implies_no_crash.
+Print Assumptions C19_refinement_implies_no_crash_2.
